@@ -2,6 +2,7 @@ import EdpVerif.Drv.Etf
 import EdpVerif.Drv.C05
 import EdpVerif.Generated.Control
 import EdpVerif.Impl.Receiver
+import EdpVerif.Impl.ReceiverBP
 import EdpVerif.Spec.Receiver
 namespace Edp.Drv
 open Edp Edp.Framing Edp.Receiver
@@ -204,6 +205,41 @@ def judge (env : Spec.Env) (w : DWorld) (h : List Item) (observed : String) : Ex
         | none => pure "ok"
   | _ => pure ("FAIL " ++ observed.take 80)
 
+
+/-! ### full mailboxes: the bounded system (`Impl/ReceiverBP.lean`) with the capacity and the send forms of the source -/
+
+open ReceiverBP in
+/-- `c19bp`: process `gi` is held in its handler with `fills` filler messages accepted (one taken, the rest queued); the
+frames of `h` have been read by the receiver. "before": what has arrived anywhere while the gated process takes nothing
+(the receiver steps as often as it can); "after": the gate is open, everything drains. The capacity is
+`DEFAULT_MAILBOX_CAPACITY` of the source, the forms are `srcRouteForms`. -/
+def predictFull (x : Ext) (w : DWorld) (h : List Item) (gi fills : Nat) : String :=
+  let cap := Gen.MAILBOX_DEFAULT_CAPACITY
+  let fill : LMsg := .regular (.atom "fill".toUTF8.toList)
+  let isFill : LMsg → Bool := fun m => match m with | .regular (.atom a) => a == "fill".toUTF8.toList | _ => false
+  let bodies := h.filterMap fun | .frame b => (if b.isEmpty then none else some b) | _ => none
+  let boxes : List Box := (List.range w.live.length).map fun i =>
+    let p := w.live.getD i default
+    if i = gi then ⟨p.key, List.replicate (min fills 1) fill, List.replicate (fills - 1) fill⟩ else ⟨p.key, [], []⟩
+  let s0 : Sys := ⟨⟨boxes, w.names.map fun (n, p) => (n, p.key), w.calls, [], []⟩, bodies.map (classify x tbl), []⟩
+  let gk := (w.live.getD gi default).key
+  let others := (List.range w.live.length).filter (· ≠ gi) |>.map fun i => (w.live.getD i default).key
+  -- the other processes take at once; the gated one takes nothing
+  let round1 : List ReceiverBP.Ev := .rx :: others.map .take
+  let s1 := runB srcRouteForms cap s0 ((List.replicate (bodies.length + 1) round1).flatten)
+  let round2 : List ReceiverBP.Ev := [.take gk, .rx] ++ others.map .take
+  let s2 := runB srcRouteForms cap s1 ((List.replicate (fills + 2 * bodies.length + 2) round2).flatten)
+  let show1 (s : Sys) (handledOnly : Bool) : String :=
+    let logs := s.b.boxes.map fun b =>
+      let l := (if handledOnly && b.key == gk then b.taken else b.taken ++ b.queue).filter (fun m => !isFill m)
+      joinOr "/" (l.map LMsg.text)
+    let rpcs := w.calls.map fun k =>
+      match s.b.replies.find? (fun r => r.1 == k) with
+      | some (_, t) => "ok!" ++ t.text
+      | none => "-"
+    ";".intercalate logs ++ "@" ++ joinOr ";" rpcs
+  show1 s1 true ++ "|" ++ show1 s2 false ++ (if s2.b.dropped.isEmpty && s2.todo.isEmpty then "" else "@undelivered")
+
 end C19
 
 /-- driver requests of property C19 -/
@@ -213,6 +249,11 @@ def handleC19 : List String → Option String
     let w ← C19.getWorld w
     let h ← C19.getHistory h
     pure (C19.predict (parseOracle o).ext w h)
+  -- `c19bp <oracle> <world> <history> <gated index> <fillers>`
+  | ["c19bp", o, w, h, gi, fills] => some <| run do
+    let w ← C19.getWorld w
+    let h ← C19.getHistory h
+    pure (C19.predictFull (parseOracle o).ext w h gi.toNat! fills.toNat!)
   -- `c19rx <limit> <oracle> <events>`
   | ["c19rx", limit, o, evs] => some <| run do
     let evs ← C19.getRxEvs limit.toNat! evs
